@@ -145,6 +145,20 @@ def _others(args):
                     os.unlink(path)
                 if seen.get('offsets') != [exp] or seen.get('title') != 'ST' or seen.get('xlim') != (0.0, 0.95):
                     problems.append({nm: dict(seen), 'expected_marker': exp})
+            # the remaining module-level save functions: the markers in the figure that is written are the sequences' own points
+            for nm, call_, exp in (('plots.save_single_uverskyPlot', lambda p: plots.save_single_uverskyPlot(uh, mnc, p), [(mnc, uh)]),
+                                   ('plots.save_multiple_phasePlot', lambda p: plots.save_multiple_phasePlot([q[0] for q in pts], [q[1] for q in pts], p, ['a', 'b']), list(pts)),
+                                   ('plots.save_multiple_phasePlot2', lambda p: plots.save_multiple_phasePlot2([o, o2], p, ['a', 'b']), list(pts)),
+                                   ('plots.save_multiple_uverskyPlot', lambda p: plots.save_multiple_uverskyPlot([q[1] for q in upts], [q[0] for q in upts], p, ['a', 'b']), list(upts)),
+                                   ('plots.save_multiple_uverskyPlot2', lambda p: plots.save_multiple_uverskyPlot2([o, o2], p, ['a', 'b']), list(upts))):
+                seen.clear()
+                path = os.path.join(work, '%s_%d_m' % (nm.replace('.', '_'), os.getpid()))
+                call_(path)
+                for q in (path, path + '.png', path + '.pdf'):
+                    if os.path.exists(q):
+                        os.unlink(q)
+                if seen.get('offsets') != exp:
+                    problems.append({nm: dict(seen), 'expected_markers': exp})
         finally:
             plt.close = real_close
             real_close('all')
